@@ -40,6 +40,8 @@ def slot_doc(rng):
         lambda: f"1. x {m()}\n2. y",
         lambda: f"<div>{m()}</div>\n\n<b>{m()}</b> text",
         lambda: f"\\{m()} &{m()};",
+        lambda: docs.flanking_soup(rng) + f" {m()}",
+        lambda: "- " + docs.flanking_soup(rng) + f"\n\n> [{docs.flanking_soup(rng)}](/u)",
         # pairs whose closing run is longer / shorter than the opening one, inside link text: the closers must stay inside
         lambda: rng.choice(["[~~a~~~](u)", "[~~~a~~~](u)", "x [b ~~c~~~](/url \"t\") y", "[**a***](u)", "[*a [b*](u)", "[~~a](u)~~ ~",
                             "~~[x ~~y~~~](/u)~~", "[~~a~~~~~](u) ~~b~~~", "![~~a~~~](u) [_a__](v)"]) + f" {m()}",
@@ -167,6 +169,16 @@ def run(ctx) -> int:
         if d:
             direct = {"config": hcfg, **d}
             break
+    # the hand-made corner documents first, under the html-off forms of the two configurations that switch every rule on
+    for cd in docs.corner_docs():
+        for ci in (1, 2):
+            if direct is not None:
+                break
+            ccfg = dict(configs.STANDARD[ci], options=dict(configs.STANDARD[ci]["options"], html=False))
+            n_dir += 1
+            d = direct_property(ccfg, cd)
+            if d:
+                direct = {"config": ccfg, "src": cd, **d}
     if direct is None:
         n_dir += 1
         d = preset_property()
